@@ -69,38 +69,34 @@ theorem implHas_append (F : Facts15) [DeepCopy F] (fuel : Nat) (name : String) (
   refine ⟨impl_append F fuel name t, ?_⟩
   intro v g g2 hr hx
   unfold appendImpl at hr
-  obtain ⟨g1, t1, h1, hr⟩ := bind_ok_inv _ _ _ _ _ hr
-  obtain ⟨g1', t2, h2, hr⟩ := bind_ok_inv _ _ _ _ _ hr
-  have e1 := (good_delayedAll (n := g.cls.length) (na := g.attrs.length) (T := []) F fuel v t g (Nat.le_refl _) (Nat.le_refl _)).1
+  obtain ⟨g1, t2, h1, hr⟩ := bind_ok_inv _ _ _ _ _ hr
+  have e1 := (good_delayedBoth (n := g.cls.length) (na := g.attrs.length) (T := []) F fuel F.delayAppend v name t false g
+    (Nat.le_refl _) (Nat.le_refl _)).1
   rw [h1] at e1
-  have e2 := (good_delayedOne (n := g.cls.length) (na := g.attrs.length) (T := []) F fuel v name t1 false g1 e1.clsLen e1.attrsLen).1
-  rw [h2] at e2
   have hlt : v < g.cls.length := by
     obtain ⟨vc, hvc⟩ := hx
     rcases Nat.lt_or_ge v g.cls.length with hl | hl
     · exact hl
     · rw [List.getElem?_eq_none hl] at hvc; cases hvc
-  have hx2 := exists_of_ext (e1.trans e2) v hlt hx
-  exact updCls_has name g1' g2 v _ (fun cl => mem_keys_odictSet _ _ _) hx2 hr
+  have hx2 := exists_of_ext e1 v hlt hx
+  exact updCls_has name g1 g2 v _ (fun cl => mem_keys_odictSet _ _ _) hx2 hr
 
 theorem implHas_insert (F : Facts15) [DeepCopy F] (fuel idx : Nat) (name : String) (t : Nat) :
     ImplHas name (insertImpl F fuel idx name t) := by
   refine ⟨impl_insert F fuel idx name t, ?_⟩
   intro v g g2 hr hx
   unfold insertImpl at hr
-  obtain ⟨g1, t1, h1, hr⟩ := bind_ok_inv _ _ _ _ _ hr
-  obtain ⟨g1', t2, h2, hr⟩ := bind_ok_inv _ _ _ _ _ hr
-  have e1 := (good_delayedAll (n := g.cls.length) (na := g.attrs.length) (T := []) F fuel v t g (Nat.le_refl _) (Nat.le_refl _)).1
+  obtain ⟨g1, t2, h1, hr⟩ := bind_ok_inv _ _ _ _ _ hr
+  have e1 := (good_delayedBoth (n := g.cls.length) (na := g.attrs.length) (T := []) F fuel F.delayInsert v name t true g
+    (Nat.le_refl _) (Nat.le_refl _)).1
   rw [h1] at e1
-  have e2 := (good_delayedOne (n := g.cls.length) (na := g.attrs.length) (T := []) F fuel v name t1 true g1 e1.clsLen e1.attrsLen).1
-  rw [h2] at e2
   have hlt : v < g.cls.length := by
     obtain ⟨vc, hvc⟩ := hx
     rcases Nat.lt_or_ge v g.cls.length with hl | hl
     · exact hl
     · rw [List.getElem?_eq_none hl] at hvc; cases hvc
-  have hx2 := exists_of_ext (e1.trans e2) v hlt hx
-  exact updCls_has name g1' g2 v _ (fun cl => mem_keys_odictInsert _ _ _ _) hx2 hr
+  have hx2 := exists_of_ext e1 v hlt hx
+  exact updCls_has name g1 g2 v _ (fun cl => mem_keys_odictInsert _ _ _ _) hx2 hr
 
 /-- one more implementation step does not take the field away from anybody -/
 theorem hasField_step (name : String) (impl : Nat → M Unit) (hi : ImplHas name impl) (g g2 : Heap) (w v : Nat)
